@@ -225,10 +225,28 @@ def run(tier):
     res = impl_run([{"op": "c15_splitlines", "inputs": eavals}])
     splits = res[0]["res"]
     dec = [c.encode("latin-1").decode("utf-8", "surrogateescape") for c in contents]
-    cases = ["(%s, %s)" % (coq_str(c), coq_str(v)) for c, v in zip(dec, eavals)]
-    m1, e1, n1 = coq_eval("C15", "k_eavalue", "Lib.Str Corr.K15", "chk_ea_value", cases, shard=12, timeout=600)
-    cases = ["(%s, %s)" % (coq_str(v), coq_strlist(ls)) for v, ls in zip(eavals, splits)]
-    m2, e2, n2 = coq_eval("C15", "k_splitlines", "Lib.Str Corr.K15", "chk_splitlines", cases, shard=12, timeout=600)
+
+    def sdef(name, x):
+        return "Definition %s : list N := %s.\n" % (name, coq_str(x))
+    order = sorted(range(len(contents)), key=lambda i: -len(contents[i]))
+    comp_bundles, comp_idx = [], []
+    nb = 8
+    for b in range(nb):
+        idxs = order[b::nb]
+        pre = "".join(sdef(f"c{i}", dec[i]) + sdef(f"v{i}", eavals[i]) +
+                      "Definition s%d : list (list N) := %s.\n" % (i, coq_strlist(splits[i])) for i in idxs)
+        comp_bundles.append({"name": f"k_sidecar_{b}", "imports": "Lib.Str Corr.K15", "pre": pre,
+                             "evals": [("chk_ea_value", [f"(c{i}, v{i})" for i in idxs]),
+                                       ("chk_splitlines", [f"(v{i}, s{i})" for i in idxs])]})
+        comp_idx.append(idxs)
+    m1, m2, e1, e2 = [], [], None, None
+    for idxs, (mms, err) in zip(comp_idx, coqmulti.run_bundles("C15", comp_bundles)):
+        if err:
+            e1 = (e1 or "") + err
+            continue
+        m1 += [idxs[i] for i in mms[0]]
+        m2 += [idxs[i] for i in mms[1]]
+    n1, n2 = len(comp_bundles), 0
     for c in contents:
         chk.count(("ea", c), nontrivial=len(c) > 0)
     if m1 or e1:
@@ -272,9 +290,12 @@ def run(tier):
     def decode_out(o):
         return gen.mask_times(o["out"].encode("latin-1")).decode("utf-8", "surrogateescape")
 
+    reported_tags = set()
+
     def report(wi, form, sel, req, tls, out, what, tag, **extra):
         nonlocal found
         found = True
+        reported_tags.add(tag)
         tree, items, _ = worlds[wi]
         near = [e for e in tree if ("/" + e["path"]).startswith(sel.split("|")[0]) and len(e.get("data", "")) < 30000]
         rep = {"what": what, "form": form, "selector": sel, "request_latin1": gen.lat(req), "tls": tls,
@@ -386,8 +407,8 @@ def run(tier):
     # ---------------- K: evaluate the model on the same cases ----------------
     IMPORTS = "Lib.Str Model.Entry Model.GopherPlus Corr.K15"
     cfg = "%s %s %s (%d)%%Z" % ("t_default", coq_str(ADMIN), coq_str(SRV), PORT)
-    CH = {"info": f"chk_info {coq_str(ADMIN)} {coq_str(SRV)} ({PORT})%Z",
-          "dir": f"chk_dir_rendered {coq_str(ADMIN)} {coq_str(SRV)} ({PORT})%Z",
+    CH = {"info": f"chk_info true {coq_str(ADMIN)} {coq_str(SRV)} ({PORT})%Z",
+          "dir": f"chk_dir_rendered true {coq_str(ADMIN)} {coq_str(SRV)} ({PORT})%Z",
           "items": "chk_writedir_items", "pop": f"chk_populate {TARGS}", "parse": "chk_parse"}
     groups = {"info": k_info, "dir": k_dir, "items": k_items, "pop": k_pop, "parse": k_parse}
     bundles, owners = [], []
@@ -400,16 +421,36 @@ def run(tier):
             owners.append((g, [m for m, _ in part]))
     kres = coqmulti.run_bundles("C15", bundles) if not terr else []
     tick("k-end-to-end")
-    kbad, kerrs = [], []
-    for (g, metas), (mms, err) in zip(owners, kres):
+    kbad, kerrs, redo = [], [], []
+    for b, (g, metas), (mms, err) in zip(bundles, owners, kres):
         if err:
             kerrs.append(err)
             continue
-        kbad += [(g, metas[i]) for i in mms[0]]
+        if g in ("info", "dir") and mms[0]:
+            redo.append((b, g, [metas[i] for i in mms[0]], [b["evals"][0][1][i] for i in mms[0]]))
+        else:
+            kbad += [(g, metas[i]) for i in mms[0]]
+    # cases that do not match the repaired getblock: do they match the pinned one (plain splitlines)?
+    pinned_blank = 0
+    if redo:
+        jobs2 = [{"name": b["name"] + "_pinned", "imports": IMPORTS, "local_modules": b.get("local_modules", []),
+                  "evals": [(CH[g].replace(" true ", " false ", 1), cs)]} for b, g, _, cs in redo]
+        for (b, g, metas, cs), (mms, err) in zip(redo, coqmulti.run_bundles("C15", jobs2)):
+            if err:
+                kerrs.append(err)
+            still = set(mms[0])
+            for j, m in enumerate(metas):
+                if j in still:
+                    kbad.append((g, m))
+                else:
+                    pinned_blank += 1
+    if pinned_blank and "sidecar-trailing-blank" not in reported_tags:
+        kbroken.append(("K15 end to end (getblock keeps the final blank line)", {"cases_matching_only_the_pinned_splitter": pinned_blank}))
     cov["correspondence"] = {"ea_value_cases": len(contents), "splitlines_cases": len(eavals), "info_cases": len(k_info),
                              "directory_cases": len(k_dir), "writedir_item_cases": len(k_items),
                              "populate_cases": len(k_pop), "parser_twin_cases": len(k_parse),
-                             "shards": n1 + n2 + len(bundles), "mismatches": len(kbad) + len(m1) + len(m2)}
+                             "shards": n1 + n2 + len(bundles), "mismatches": len(kbad) + len(m1) + len(m2),
+                             "matching_only_the_pinned_getblock": pinned_blank}
     if kbad or kerrs:
         kbroken.append(("K15 end to end", {"cases": [[g, m[1], m[2]] for g, m in kbad[:20]],
                                            "errors": [e[-1500:] for e in kerrs[:3]]}))
